@@ -10,6 +10,9 @@ CHECKS = {
  'C01': ('semantics', 'TLC enumerates rule shapes (MC_Grammar) + seeded abstract grammars -> fggs.sum_products x 4 semirings x 3 methods x 2 dtypes -> TLC judge (Trace_SumProduct) compares every tensor entry with the sum-product computed by definition (Semantics.tla) on exact carriers',
          'Every start-rule shape of a small universe (<=2-3 nodes, <=2-3 edges incl. nullary, repeated attachment, rule-less nonterminal, edgeless nodes/externals) exhaustively, plus seeded grammars with up to 4 nonterminals, zero and infinite weights; the oracle is an independent definitional evaluation in TLA+ with exact integer arithmetic, itself checked to be a fixed point of the equations (R3).',
          'Trusted: TLC, Semantics.tla, the projection of floats onto the integer carrier (exact for Real/Viterbi/Bool, an interval of naturals within 1e-4/1e-9 of exp(result) for Log). Weights are integers or infinite; float rounding on general weights is outside the model.', 'DESIGN.md#c01'),
+ 'C05': ('factorize', 'seeded grammars + label-collision grammars + min_fill-suboptimal witnesses -> factorize_rule/hrg/fgg x 3 methods on real rules -> TLC judge (Trace_Factorize): fresh-nonterminal discipline, inlining up to isomorphism, width clauses with TLC treewidth DP; sum_products of the factorized FGG judged by Trace_SumProduct',
+         'Every rule of 80+ (quick) / 770+ (thorough) seeded grammars (isolated nodes, several components, nullary/repeated-attachment edges, externals anywhere, up to 5 nodes) through all three entry points and methods; TLC inlines the fresh nonterminals and searches for an isomorphism with the original rule (exhaustive up to 6 nodes), checks no rule got wider and that exact methods reach treewidth+1 (treewidth by subset DP, witnesses of 7-8 nodes where min_fill is sub-optimal); the factorized FGG has the same sum-product (exact, nat carrier).',
+         'Trusted: TLC, Factorize.tla + TreeDec.tla + Semantics.tla, the projection of rules (node ids to integers). Beyond 6 nodes only the identity-on-ids isomorphism is tried (uncertified otherwise, never an alarm).', 'DESIGN.md#c05'),
  'C08': ('semiring', 'TLC proves the laws on the carriers (MC_Semiring, R3) -> add/mul/sub/star/sum/from_int of the 4 semirings on all pairs/triples of carrier points, on Tensors and on PatternedTensors of 6 patterns -> TLC judge (Trace_Semiring) against the carrier operations',
          'All triples of carrier points (naturals incl. 0 and INF; integer log-weights incl. -INF/+INF; booleans; quarters for star) for every law, both dtypes, and all pairs of operand representations (dense, expanded, diagonal with default zero/one/INF, sum-axis embedding) for add/mul/sub.',
          'Trusted: TLC, Semiring.tla. The claim is restricted to the exact sub-carrier and the branch points of the closed forms: arbitrary finite floats (subnormals, huge values) cannot be enumerated by TLC and the laws do not hold bit-exactly under rounding.', 'DESIGN.md#c08'),
